@@ -1027,6 +1027,8 @@ class AEval(dtable.Eval):
                 return args[0]
             if last == "take" and f["path"].endswith("mem::take") and len(args) == 1:
                 return args[0]
+            if last in ("default", "new") and not args and len(segs) == 2 and segs[0][:1].isupper():
+                return DEFAULT          # `Type::default()` / `Type::new()` of a type without a local constructor: its default value
             if getattr(self, "opaque_paths", None) is not None and self.opaque_paths.search(f["path"]):
                 # a function of the environment (e.g. an associated function of a type parameter): an uninterpreted value
                 return A("%s(%s)" % (f["path"], ", ".join(fmt(x) for x in args)))
@@ -1120,6 +1122,9 @@ class AEval(dtable.Eval):
     def method(self, e, env):
         m = e["method"]
         rnode = e["receiver"]
+        if m in ("push", "push_back", "push_front", "insert", "extend", "entry", "retain", "sort", "sort_by", "sort_unstable", "clear") and is_node(rnode) and rnode["k"] == "Path" \
+                and env.get(rnode["path"]) == DEFAULT and m not in self.builtins and m not in self.mut_builtins:
+            env[rnode["path"]] = L()        # the default value of a collection type is the empty collection
         # stateful iterator: `it.next()` on a variable holding a list
         if m == "next" and not e["args"] and is_node(rnode) and rnode["k"] == "Path" and rnode["path"] in env and env[rnode["path"]][0] == "list":
             lst = env[rnode["path"]][1]
@@ -1356,7 +1361,7 @@ class AEval(dtable.Eval):
             v = self.call_fn("%s::%s" % (tyname, m), [r] + args)
             self._write_back([rnode] + list(e["args"]), env)
             return v
-        if m in self.funcs and r[0] != "list" and not (m in ("map", "iter") and r[0] in ("ctor",) and r[1] in ("Some", "None")):
+        if m in self.funcs and r[0] != "list" and not (m in ("map", "iter") and r[0] in ("ctor",) and r[1] in ("Some", "None")) and self._impl_fits(self.funcs[m], r):
             v = self.call_fn(m, [r] + args)
             self._write_back([rnode] + list(e["args"]), env)
             return v
@@ -1546,6 +1551,17 @@ class AEval(dtable.Eval):
                 return B(some and self._b(self.apply(args[0], [r[2][0]])))
             if m == "is_none_or":
                 return B((not some) or self._b(self.apply(args[0], [r[2][0]])))
+            if m == "or_else" and len(args) == 1:
+                return r if some else self.apply(args[0], [])
+            if m == "xor" and len(args) == 1 and args[0][0] == "ctor" and args[0][1] in ("Some", "None"):
+                o = args[0][1] == "Some"
+                return r if some and not o else (args[0] if o and not some else C("None"))
+            if m == "zip" and len(args) == 1 and args[0][0] == "ctor" and args[0][1] in ("Some", "None"):
+                return C("Some", T(r[2][0], args[0][2][0])) if some and args[0][1] == "Some" else C("None")
+            if m in ("inspect",) and len(args) == 1:
+                if some:
+                    self.apply(args[0], [r[2][0]])
+                return r
             if m == "is_some":
                 return B(some)
             if m == "is_none":
@@ -1920,6 +1936,20 @@ class AEval(dtable.Eval):
             return ("str", dtable.render(sub.out))
         except Unknown:
             return v
+
+    @staticmethod
+    def _impl_fits(fn, r):
+        """a method found by its bare name only applies when the receiver can be a value of the impl's type: an impl of a std
+        trait (Clone, Display, PartialEq ..) for some local type is not the `clone` / `fmt` / `eq` of every other value"""
+        tr = (getattr(fn, "impl_trait", None) or "").split("<")[0].split("::")[-1]
+        if tr not in ("Clone", "Display", "Debug", "PartialEq", "Eq", "PartialOrd", "Ord", "Hash", "Default", "From", "Into", "Deref", "DerefMut", "Drop", "Iterator", "IntoIterator", "AsRef", "ToTokens", "FromStr", "TryFrom"):
+            return True
+        st = (getattr(fn, "impl_self", None) or "").split("<")[0].split("::")[-1].lstrip("&")
+        if r[0] != "ctor":
+            return False
+        if r[1] == st:
+            return True
+        return PROGRAM is not None and st in PROGRAM.variant_enum.get(r[1], ())
 
     def _cur_file(self):
         st = getattr(self, "_file_stack", None)
